@@ -11,7 +11,7 @@
    F-sat class) and "no claim makes another user's rightful claim fail"; both are covered by the correspondence only.
    Statements only. *)
 From MD.Model Require Import Base Ownable Epoch PoolMath Types PoolManager FarmManager Chain.
-From MD.Proofs Require Import WeightProofs FarmProofs RewardProofs FarmCustody FarmCustodyChain BankProofs TxFarm EmissionBound Reconcile.
+From MD.Proofs Require Import WeightProofs FarmProofs RewardProofs FarmCustody FarmCustodyChain BankProofs TxFarm EmissionBound Reconcile PositionsSafe CursorSafe PositionsExample.
 
 (* over ALL histories (any users, any interleaving, rejected operations, injected faults): the recorded payouts of
    every farm of every reachable world stay within what the farm was funded with; together with C05 (the farm manager's
@@ -93,6 +93,22 @@ Theorem C06_no_reward_before_the_first_weight_entry : forall s f lp recv until l
   forall e r, In (e, r) rs -> e < e0 -> r = 0.
 Proof. exact no_reward_before_first_entry. Qed.
 
+(* OVER HISTORIES. A user's claim cursor (the last epoch paid to him) moves only through his own transactions: through ANY
+   history of operations that o does not sign - other users' positions, claims, closes, farm operations, calls between
+   the contracts, replies, rejected operations, injected faults - o's cursor is exactly what it was. Nobody else can
+   advance it (making him lose epochs) or rewind it (making an epoch payable to him twice). *)
+Theorem C06_claim_cursor_moves_only_by_its_owner : forall o ops w,
+  o <> EM -> o <> FC -> o <> PM -> o <> FM ->
+  Forall (not_signed_by o) ops ->
+  lc_get (fm_last_claimed (w_fm (run w ops))) o = lc_get (fm_last_claimed (w_fm w)) o.
+Proof. exact cursor_moves_only_by_its_owner. Qed.
+
+(* the hypotheses are met by a real history (kernel-evaluated): alice's cursor is 2; carol stakes and claims (her cursor
+   goes from none to 4), bob claims twice and closes his position, two days pass, every transaction accepted: alice's
+   cursor is still 2 *)
+Theorem C06_cursor_example : cursor_statement.
+Proof. exact cursor_example. Qed.
+
 Print Assumptions C06_every_reward_within_budget_and_after_cursor.
 Print Assumptions C06_claimed_amount_bounded.
 Print Assumptions C06_no_epoch_paid_twice.
@@ -101,3 +117,5 @@ Print Assumptions C06_claim_transaction_pays_exactly_what_rewards_quotes.
 Print Assumptions C06_epoch_emission_bound.
 Print Assumptions C06_emission_bound_over_epochs.
 Print Assumptions C06_no_reward_before_the_first_weight_entry.
+Print Assumptions C06_claim_cursor_moves_only_by_its_owner.
+Print Assumptions C06_cursor_example.
